@@ -18,6 +18,10 @@
 (*   (cls, xptoks, xdtoks, domcls, measures - copied from XmlDoc's case file) the document-level clauses are judged   *)
 (*   too:  "wf" within the limits => accepted, pull tokens = xptoks, DOM = xdtoks (domcls "yes"; for "undef" the DOM   *)
 (*   may also fail);  "unbal" => rejected by all three;  "wf" beyond a limit => rejected.                             *)
+(* Limits: Doc / Api carry the five limits as the oracle compares them - exact below 2^30, 2^30 for every larger value    *)
+(*   (TLC integers are 32-bit; every measure of a document is far below; see XmlLimits.tla, which generates the extreme  *)
+(*   settings: 0, 1, 2^31, 2^32, 2^57..2^63, SIZE_MAX ...).  A document within the limits must be accepted under EVERY   *)
+(*   such setting, and no exception may escape any interface (field exc of End / Api).                                   *)
 (* Weak readings (recorded in C14.meta.json): token limit - the Eof token may or may not count (cntHi/cntLo);         *)
 (*   white-space-only text may or may not be reported; text span may or may not include leading white space; a PI      *)
 (*   target may or may not be subject to the name limit.                                                              *)
@@ -53,8 +57,14 @@ EvTok ==
   /\ cnt' = cnt + 1 /\ doc' = doc
   /\ Note(IF Ev.in THEN "" ELSE "a reported slice lies outside the input")
 
+\* "terminates": the parser reports errors through error(); an exception that escapes next() / runSax / DomBuilder::build
+\* (std::length_error, std::bad_alloc ... - e.g. a limit value used as an allocation size) is an abnormal end, whatever the
+\* input and whatever the setting of the limits.  The driver catches it and names it in `exc` ("" = none).
+Threw(e) == "exc" \in DOMAIN e /\ e.exc # ""
+ExcWhy == "an exception escaped the parser (abnormal termination)"
 EndWhy(e) ==
-  IF e.ok
+  IF Threw(e) THEN ExcWhy
+  ELSE IF e.ok
   THEN IF unbal \/ stack # <<>> \/ ~Balanced(hist) THEN "accepted although the reported start/end tags are not balanced"
        ELSE IF mx.d > doc.ld THEN "accepted beyond the depth limit"
        ELSE IF mx.a > doc.la THEN "accepted beyond the attribute limit"
@@ -75,7 +85,8 @@ Gen(e) == "cls" \in DOMAIN e
 Within(e) == e.dmax <= e.ld /\ e.amax <= e.la /\ e.nameHi <= e.ln /\ e.textHi <= e.lt /\ (e.lk = 0 \/ e.cntHi <= e.lk)
 Beyond(e) == e.dmax > e.ld \/ e.amax > e.la \/ e.nameLo > e.ln \/ e.textLo > e.lt \/ (e.lk # 0 /\ e.cntLo > e.lk)
 ApiWhy(e) ==
-  IF e.expanded THEN "an internal or external entity was expanded"
+  IF Threw(e) THEN ExcWhy
+  ELSE IF e.expanded THEN "an internal or external entity was expanded"
   ELSE IF e.sok # e.pok \/ e.stoks # e.ptoks THEN "SAX reports something else than the pull interface"
   ELSE IF e.dok /\ ~e.pok THEN "DOM built from a document the pull interface rejects"
   ELSE IF e.dok /\ e.decok /\ e.dtoks # e.pdtoks THEN "DOM differs from the decoded pull tokens"
